@@ -251,3 +251,14 @@ Proof.
                   [[0; 1; 2]%nat; [2; 0; 1]%nat].
     repeat split; try reflexivity; repeat constructor.
 Qed.
+
+(* the boolean envelope-membership checks evaluated by the harness (L2) are sound: a passed check exhibits the
+   permutation / decisions / arg-max keys for which the model produces exactly the implementation's result *)
+Theorem C15_envelope_checkers_sound :
+  (forall fb g cfg out, in_force_pos fb g cfg out = true -> In (Some out) (force_pos_envelope fb g cfg)) /\
+  (forall sens decs bps obs, cuts_replay sens decs bps obs = true -> exists dec, compute_cuts sens dec bps = obs) /\
+  (forall affs cur obs, assignments_in_envelope cur affs obs = true ->
+     exists bests, Forall2 (fun b aff => Permutation b aff) bests affs /\
+                   assignments_from cur bests = Some (cur :: obs)).
+Proof. exact envelope_checkers_sound. Qed.
+Print Assumptions C15_envelope_checkers_sound.
